@@ -384,6 +384,17 @@ impl VerifRemoteSession {
         self.state.advertised_local_pids.iter().copied().collect()
     }
 
+    /// Local pid of the actor that stands in for the transport (`state.tcp`): a peer may well host an
+    /// actor with the same pid number (pids are per-process counters).
+    pub fn transport_pid(&self) -> u64 {
+        self.sink.get_id().pid()
+    }
+
+    /// Is the session actor still running?
+    pub fn session_alive(&self) -> bool {
+        self.myself.get_status() < ractor::ActorStatus::Stopping
+    }
+
     /// The session actor's cell (the proxies' supervisor).
     pub fn cell(&self) -> ActorCell {
         self.myself.get_cell()
